@@ -6,8 +6,8 @@
     [hist_of ops] = the history of the run (per transaction: level, start = number of commits
     before its begin, write set, read set, reads with the version seen, how it ended),
     reconstructed from the operations and answers only. *)
-From GV Require Export Tm.Model Tm.Spec.
-From GV Require Import Tm.AL Tm.SpecProofs Tm.Refine Tm.Proofs.
+From GV Require Export Tm.Model Tm.Spec Tm.Run.
+From GV Require Import Tm.AL Tm.SpecProofs Tm.Refine Tm.Proofs Tm.RunProofs.
 Import ListNotations.
 Open Scope Z_scope.
 
@@ -71,7 +71,7 @@ Print Assumptions gc_transparent_pre_refuted.
 Theorem model_refines_spec : forall ops,
   nongc_outs ops (outs ops) = snd (spec_run [] (remove_gc ops)) /\
   hist_of ops = fst (spec_run [] (remove_gc ops)).
-Proof. intro ops. split; [apply outs_spec|apply hist_of_spec]. Qed.
+Proof. exact model_refines_spec_l. Qed.
 Print Assumptions model_refines_spec.
 
 Theorem tx_state_machine : forall pre o t r r',
@@ -99,10 +99,15 @@ Theorem oracle_c03_sound : forall ops,
   fcw_okb (hist_of ops) = true /\ ww_justified [] (combine ops (outs ops)) = true /\
   stale_refused [] (combine ops (outs ops)) = true /\ epochs_ok [] (combine ops (outs ops)) = true /\
   conforms [] (combine ops (outs ops)) = true.
-Proof.
-  intro ops. repeat split; [apply fcw_oracle_l|apply ww_justified_l|apply stale_refused_l|apply epochs_ok_l|apply conforms_l].
-Qed.
+Proof. exact oracle_c03_sound_l. Qed.
 Print Assumptions oracle_c03_sound.
+
+(** session level (finding C03-K2): nothing on the query path registers writes, so the manager
+    accepts both commits of a lost update issued through two sessions *)
+Theorem session_lost_update_refuted :
+  exists sops ks, chk_session sops ks = true /\ oracle_sess_c03 sops ks = false /\ k_sess_c03 sops ks = true.
+Proof. exact session_lost_update_refuted_l. Qed.
+Print Assumptions session_lost_update_refuted.
 
 (** non-vacuity: the hypotheses are met by real runs *)
 Definition ex_two_writers : list op :=
@@ -124,11 +129,14 @@ Example nv_refusal :
   answer (firstn 9 ex_two_writers) (Commit 3) = Err WriteConflict /\
   active_in (hist_of ex_two_writers) 2 = false /\ active_in (hist_of ex_two_writers) 99 = false.
 Proof. vm_compute. repeat split; reflexivity. Qed.
-(** garbage collection really removes: after the last commit nothing is left but the active tx *)
+(** garbage collection really removes — but not while transaction 3 (still Active after its
+    refused commit, start epoch 0) pins the committed writers it may conflict with *)
 Example nv_gc :
-  keys (txs (st_after (ex_two_writers ++ [Gc]))) = [3] /\
-  snd (step (st_after ex_two_writers) Gc) = OkCount 2.
-Proof. vm_compute. split; reflexivity. Qed.
+  keys (txs (st_after (ex_two_writers ++ [Gc]))) = [4; 3; 2] /\
+  snd (step (st_after ex_two_writers) Gc) = OkCount 0 /\
+  keys (txs (st_after (ex_two_writers ++ [Abort 3; Gc]))) = [] /\
+  snd (step (st_after (ex_two_writers ++ [Abort 3])) Gc) = OkCount 3.
+Proof. vm_compute. repeat split; reflexivity. Qed.
 (** the pre-repair witness is accepted by the current code *)
 Example nv_pre_witness_now : outs w_spurious = [OkTx 2; OkUnit; OkEpoch 1; OkTx 3; OkUnit; OkEpoch 2].
 Proof. vm_compute. reflexivity. Qed.
